@@ -143,15 +143,18 @@ Section UAF.
         - a notification or a recompute only happens while linked;
         - the fold is recomputed only when every write made while linked has been notified
           (inputs are lower than the fold, so they are recomputed, and notify, first);
+          writes to nodes that are not inputs of the fold do not matter;
           extra notifications (an input recomputed without a new value, an input occupying
           several slots notifying once per edge) are allowed;
         - unlinking drops the outstanding obligations: the full statement of C14 demands
           that whatever happened while the fold was away is picked up by the first
           recompute after it returns. *)
+  Definition is_input (i : nat) : bool := existsb (Nat.eqb i) inputs.
+
   Fixpoint admissible (linked : bool) (dirty : list nat) (h : list ev) : Prop :=
     match h with
     | [] => True
-    | Write i _ :: h => admissible linked (if linked then i :: dirty else dirty) h
+    | Write i _ :: h => admissible linked (if linked && is_input i then i :: dirty else dirty) h
     | Notify j :: h => linked = true /\ admissible linked (filter (fun i => negb (Nat.eqb i j)) dirty) h
     | Recompute :: h => linked = true /\ dirty = [] /\ admissible linked dirty h
     | Unlink :: h => linked = true /\ admissible false [] h
@@ -159,17 +162,41 @@ Section UAF.
     end.
 
   (** The extra hypothesis the code as it is needs: once the fold has been computed, no
-      input changes behind its back — no write while it is unlinked, and no write still
-      un-notified at the moment it is unlinked. *)
+      input changes behind its back — no write to an input while it is unlinked, and no
+      write still un-notified at the moment it is unlinked. *)
   Fixpoint quiet (linked : bool) (dirty : list nat) (computed : bool) (h : list ev) : Prop :=
     match h with
     | [] => True
     | Write i _ :: h =>
-      (linked = false -> computed = false) /\ quiet linked (if linked then i :: dirty else dirty) computed h
+      (linked = false -> is_input i = true -> computed = false) /\
+      quiet linked (if linked && is_input i then i :: dirty else dirty) computed h
     | Notify j :: h => quiet linked (filter (fun i => negb (Nat.eqb i j)) dirty) computed h
     | Recompute :: h => quiet linked dirty (computed || linked) h
     | Unlink :: h => (computed = true -> dirty = []) /\ quiet false [] computed h
     | Relink :: h => quiet true [] computed h
+    end.
+
+  (* executable versions, used by the trace replay *)
+  Fixpoint admissibleb (linked : bool) (dirty : list nat) (h : list ev) : bool :=
+    match h with
+    | [] => true
+    | Write i _ :: h => admissibleb linked (if linked && is_input i then i :: dirty else dirty) h
+    | Notify j :: h => linked && admissibleb linked (filter (fun i => negb (Nat.eqb i j)) dirty) h
+    | Recompute :: h => linked && match dirty with [] => true | _ => false end && admissibleb linked dirty h
+    | Unlink :: h => linked && admissibleb false [] h
+    | Relink :: h => negb linked && admissibleb true [] h
+    end.
+
+  Fixpoint quietb (linked : bool) (dirty : list nat) (computed : bool) (h : list ev) : bool :=
+    match h with
+    | [] => true
+    | Write i _ :: h =>
+      (linked || negb (is_input i) || negb computed) &&
+      quietb linked (if linked && is_input i then i :: dirty else dirty) computed h
+    | Notify j :: h => quietb linked (filter (fun i => negb (Nat.eqb i j)) dirty) computed h
+    | Recompute :: h => quietb linked dirty (computed || linked) h
+    | Unlink :: h => (negb computed || match dirty with [] => true | _ => false end) && quietb false [] computed h
+    | Relink :: h => quietb true [] computed h
     end.
 End UAF.
 
